@@ -170,7 +170,7 @@ Proof.
   inversion S as [|? ? St F]; subst. rewrite Forall_forall in F.
   destruct (bcmp k p) eqn:C; [reflexivity| |].
   - exfalso. destruct I as [->|I]; [rewrite bcmp_refl in C; discriminate|].
-    specialize (F k I). unfold klt in F. rewrite (bcmp_lt_trans _ _ _ C F) in *.
+    specialize (F k I). unfold klt in F.
     assert (X : bcmp k k = Lt) by (eapply bcmp_lt_trans; eauto). rewrite bcmp_refl in X. discriminate.
   - f_equal. apply IH; [exact St|]. destruct I as [->|I]; [rewrite bcmp_refl in C; discriminate|exact I].
 Qed.
@@ -204,4 +204,230 @@ Proof.
     + rewrite P. unfold pick. rewrite newest_none; [reflexivity|].
       intros y Hy. unfold qual. destruct (beqb (vr_key y) (vr_key x)) eqn:E; [|reflexivity].
       exfalso. apply NI. apply beqb_eq in E. apply ukeys_mem. exists y; split; assumption.
+Qed.
+
+(* flat_map over two strictly sorted key lists, one included in the other, extra keys contributing nothing *)
+Lemma flat_map_sorted_incl {B} (f : bytes -> list B) : forall l2 l1,
+  StronglySorted klt l1 -> StronglySorted klt l2 ->
+  (forall k, In k l1 -> In k l2) -> (forall k, In k l2 -> ~ In k l1 -> f k = []) ->
+  flat_map f l1 = flat_map f l2.
+Proof.
+  induction l2 as [|q t2 IH]; intros l1 S1 S2 I E.
+  - destruct l1 as [|h t1]; [reflexivity|]. destruct (I h (or_introl eq_refl)).
+  - inversion S2 as [|? ? S2t F2]; subst. rewrite Forall_forall in F2.
+    destruct (in_dec (list_eq_dec N.eq_dec) q l1) as [Hq|Hq].
+    + destruct l1 as [|h t1]; [contradiction|].
+      inversion S1 as [|? ? S1t F1]; subst. rewrite Forall_forall in F1.
+      assert (h = q).
+      { destruct Hq as [->|Hq]; [reflexivity|].
+        specialize (F1 q Hq). destruct (I h (or_introl eq_refl)) as [->|Hh]; [reflexivity|].
+        specialize (F2 h Hh). unfold klt in *.
+        assert (X : bcmp h h = Lt) by (eapply bcmp_lt_trans; eauto). rewrite bcmp_refl in X. discriminate. }
+      subst h. cbn [flat_map]. f_equal. apply IH; try assumption.
+      * intros k Hk. destruct (I k (or_intror Hk)) as [->|Hk']; [|exact Hk'].
+        specialize (F1 _ Hk). unfold klt in F1. rewrite bcmp_refl in F1. discriminate.
+      * intros k Hk NI. apply E; [right; exact Hk|]. intros [->|Hk']; [|contradiction].
+        specialize (F2 _ Hk). unfold klt in F2. rewrite bcmp_refl in F2. discriminate.
+    + cbn [flat_map]. rewrite (E q (or_introl eq_refl) Hq). cbn [app]. apply IH; try assumption.
+      * intros k Hk. destruct (I k Hk) as [->|Hk']; [contradiction|exact Hk'].
+      * intros k Hk NI. apply E; [right; exact Hk|exact NI].
+Qed.
+
+Lemma snapshot_incl (V V' : list vrecb) R :
+  (forall k, pick V R k = pick V' R k) ->
+  (forall y, In y V -> exists y', In y' V' /\ vr_key y' = vr_key y) ->
+  (forall y', In y' V' -> (exists y, In y V /\ vr_key y = vr_key y') \/ pick V' R (vr_key y') = []) ->
+  snapshot V R = snapshot V' R.
+Proof.
+  intros P I E. rewrite !snapshot_eq. f_equal.
+  rewrite (flat_map_ext_in (pick V R) (pick V' R)) by (intros; apply P).
+  apply flat_map_sorted_incl; try apply ukeys_sorted.
+  - intros k Hk. apply ukeys_mem in Hk as (y & Hy & <-). apply ukeys_mem. destruct (I y Hy) as (y' & Hy' & Ey). eauto.
+  - intros k Hk NI. apply ukeys_mem in Hk as (y' & Hy' & <-).
+    destruct (E y' Hy') as [(y & Hy & Ey)|N]; [|exact N]. exfalso. apply NI. apply ukeys_mem. eauto.
+Qed.
+
+(* a record above R anywhere in the store is invisible *)
+Lemma snapshot_skip2 (p x : vrecb) V R : R < vr_rev x -> snapshot (p :: x :: V) R = snapshot (p :: V) R.
+Proof.
+  intros H. symmetry.
+  assert (Q : forall k, qual R k x = false).
+  { intros k. unfold qual. replace (vr_rev x <=? R) with false by lia. rewrite andb_false_r. reflexivity. }
+  assert (P : forall k, pick (p :: V) R k = pick (p :: x :: V) R k).
+  { intros k. unfold pick. rewrite !(newest_cons _ R k p). rewrite (newest_skip V R k x (Q k)). reflexivity. }
+  apply snapshot_incl.
+  - exact P.
+  - intros y [->|Hy]; [exists y; split; [left|]; reflexivity|exists y; split; [right; right; exact Hy|reflexivity]].
+  - intros y' [->|[->|Hy]].
+    + left. exists y'; split; [left|]; reflexivity.
+    + destruct (in_dec (list_eq_dec N.eq_dec) (vr_key y') (map vr_key (p :: V))) as [I|NI].
+      * left. apply in_map_iff in I as (y & E & Hy). eauto.
+      * right. rewrite <- P. unfold pick. rewrite newest_none; [reflexivity|].
+        intros z Hz. unfold qual. destruct (beqb (vr_key z) (vr_key y')) eqn:E; [|reflexivity].
+        exfalso. apply NI. apply beqb_eq in E. rewrite <- E. apply in_map. exact Hz.
+    + left. exists y'; split; [right; exact Hy|reflexivity].
+Qed.
+
+Lemma newest_head_ge {A} (x : @vrec A) t R k : qual R k x = true ->
+  exists r0 a0, newest (x :: t) R k = Some (r0, a0) /\ vr_rev x <= r0.
+Proof.
+  intros Q. rewrite newest_cons, Q. destruct (newest t R k) as [[r0 a0]|].
+  - destruct (vr_rev x <? r0) eqn:E; eexists _, _; split; try reflexivity; lia.
+  - eexists _, _; split; [reflexivity|lia].
+Qed.
+
+(* main lemma: the loop started with prev = p over the sorted rest yields the snapshot of p :: V *)
+Lemma wrun_snapshot R : forall V p, StronglySorted vr_lt (p :: V) -> vr_rev p <= R -> wrun R p V = snapshot (p :: V) R.
+Proof.
+  induction V as [|x t IH]; intros p S Hp.
+  - cbn [wrun]. rewrite snapshot_eq. cbn [ukeys fold_right insert_key flat_map]. rewrite app_nil_r.
+    unfold pick. rewrite newest_cons. cbn [newest]. unfold qual. rewrite beqb_refl.
+    replace (vr_rev p <=? R) with true by lia. rewrite andb_true_r. cbn [andb].
+    unfold emit_of, live. destruct (0 <? vr_rev p); cbn [andb filter]; [|reflexivity].
+    unfold not_tomb, okv_val. cbn [fst snd]. destruct (negb (beqb (vr_val p) tombstone)); reflexivity.
+  - cbn [wrun].
+    assert (Spt : StronglySorted vr_lt (p :: t)).
+    { inversion S as [|? ? S' F]; subst. inversion S' as [|? ? S'' F']; subst. inversion F; subst. constructor; assumption. }
+    assert (Sxt : StronglySorted vr_lt (x :: t)) by (inversion S; assumption).
+    assert (Lpx : vr_lt p x) by (inversion S as [|? ? ? F]; subst; inversion F; assumption).
+    destruct (R <? vr_rev x) eqn:ER.
+    + rewrite snapshot_skip2 by lia. apply IH; assumption.
+    + rewrite (IH x Sxt ltac:(lia)).
+      rewrite !snapshot_eq.
+      destruct (ukeys_head_sorted x t Sxt) as [u Eu].
+      rewrite (ukeys_cons_sorted p (x :: t) S), Eu. rewrite <- Eu.
+      rewrite (beqb_sym (vr_key x) (vr_key p)).
+      destruct (beqb (vr_key p) (vr_key x)) eqn:EK.
+      * apply beqb_eq in EK. cbn [app]. f_equal. apply flat_map_ext_in. intros k _.
+        unfold pick. rewrite (newest_cons (x :: t) R k p).
+        destruct (qual R k p) eqn:Q; [|reflexivity].
+        assert (Qx : qual R k x = true).
+        { unfold qual in *. apply andb_true_iff in Q as [Q _]. apply andb_true_iff in Q as [Q1 _].
+          apply beqb_eq in Q1. rewrite <- EK, Q1, beqb_refl. pose proof (vr_lt_samekey p x Lpx EK). cbn [andb].
+          replace (0 <? vr_rev x) with true by lia. replace (vr_rev x <=? R) with true by lia. reflexivity. }
+        destruct (newest_head_ge x t R k Qx) as (r0 & a0 & E0 & G). rewrite E0.
+        pose proof (vr_lt_samekey p x Lpx EK). replace (vr_rev p <? r0) with true by lia. reflexivity.
+      * apply beqb_neq in EK. cbn [flat_map]. rewrite filter_app. f_equal.
+        -- unfold pick. rewrite newest_cons. unfold qual at 1. rewrite beqb_refl.
+           replace (vr_rev p <=? R) with true by lia. rewrite andb_true_r. cbn [andb].
+           rewrite (newest_none (x :: t) R (vr_key p)).
+           ++ unfold emit_of, live. destruct (0 <? vr_rev p); cbn [andb filter]; [|reflexivity].
+              unfold not_tomb, okv_val. cbn [fst snd]. destruct (negb (beqb (vr_val p) tombstone)); reflexivity.
+           ++ intros y Hy. unfold qual. replace (beqb (vr_key y) (vr_key p)) with false; [reflexivity|].
+              symmetry. apply beqb_neq. intros E.
+              pose proof (vr_lt_diffkey p x Lpx EK) as C1.
+              destruct Hy as [->|Hy]; [congruence|].
+              pose proof (sorted_key_le x t Sxt y Hy) as C2.
+              rewrite E in C2. apply C2. apply bcmp_gt_lt. exact C1.
+        -- f_equal. apply flat_map_ext_in. intros k Hk.
+           unfold pick. rewrite (newest_cons (x :: t) R k p).
+           replace (qual R k p) with false; [reflexivity|].
+           symmetry. unfold qual. replace (beqb (vr_key p) k) with false; [reflexivity|].
+           symmetry. apply beqb_neq. intros <-.
+           apply ukeys_mem in Hk as (y & Hy & E).
+           pose proof (vr_lt_diffkey p x Lpx EK) as C1.
+           destruct Hy as [->|Hy]; [congruence|].
+           pose proof (sorted_key_le x t Sxt y Hy) as C2.
+           rewrite E in C2. apply C2. apply bcmp_gt_lt. exact C1.
+Qed.
+
+Lemma snapshot_nil R : snapshot [] R = [].
+Proof. reflexivity. Qed.
+
+Theorem wrun_top_snapshot R : forall V, StronglySorted vr_lt V -> wrun_top R V = snapshot V R.
+Proof.
+  induction V as [|x t IH]; intros S; [reflexivity|].
+  cbn [wrun_top]. destruct (R <? vr_rev x) eqn:E.
+  - rewrite snapshot_skip by lia. apply IH. inversion S; assumption.
+  - apply wrun_snapshot; [exact S|lia].
+Qed.
+
+(* ---------- fold splitting (C13_split, pure form) ---------- *)
+Lemma wrun_flush R p : forall V2, (forall z, In z V2 -> vr_key z <> vr_key p) -> wrun R p V2 = emit_of p ++ wrun_top R V2.
+Proof.
+  induction V2 as [|x t IH]; intros D; cbn [wrun wrun_top]; [rewrite app_nil_r; reflexivity|].
+  destruct (R <? vr_rev x); [apply IH; intros z Hz; apply D; right; exact Hz|].
+  replace (beqb (vr_key x) (vr_key p)) with false; [reflexivity|].
+  symmetry. apply beqb_neq. apply D. left; reflexivity.
+Qed.
+
+Lemma wrun_split R : forall V1 p V2, (forall y z, In y (p :: V1) -> In z V2 -> vr_key z <> vr_key y) ->
+  wrun R p (V1 ++ V2) = wrun R p V1 ++ wrun_top R V2.
+Proof.
+  induction V1 as [|x t IH]; intros p V2 D.
+  - cbn [app wrun]. apply wrun_flush. intros z Hz. apply (D p z); [left; reflexivity|exact Hz].
+  - cbn [app wrun]. destruct (R <? vr_rev x).
+    + apply IH. intros y z Hy Hz. apply D; [|exact Hz]. destruct Hy as [->|Hy]; [left; reflexivity|right; right; exact Hy].
+    + rewrite <- app_assoc. f_equal. apply IH. intros y z Hy Hz. apply D; [right; exact Hy|exact Hz].
+Qed.
+
+Theorem wrun_top_split R : forall V1 V2, (forall y z, In y V1 -> In z V2 -> vr_key z <> vr_key y) ->
+  wrun_top R (V1 ++ V2) = wrun_top R V1 ++ wrun_top R V2.
+Proof.
+  induction V1 as [|x t IH]; intros V2 D; [reflexivity|].
+  cbn [app wrun_top]. destruct (R <? vr_rev x).
+  - apply IH. intros y z Hy Hz. apply D; [right; exact Hy|exact Hz].
+  - apply wrun_split. exact D.
+Qed.
+
+(* ---------- restriction to a predicate on keys ---------- *)
+Definition kfilter (P : bytes -> bool) (V : list vrecb) : list vrecb := filter (fun x => P (vr_key x)) V.
+Definition ofilter (P : bytes -> bool) (l : list okv) : list okv := filter (fun x => P (okv_key x)) l.
+
+Lemma ofilter_emit P p : ofilter P (emit_of p) = if P (vr_key p) then emit_of p else [].
+Proof. unfold emit_of. destruct (live p); cbn; [|destruct (P (vr_key p)); reflexivity]. unfold okv_key; cbn. destruct (P (vr_key p)); reflexivity. Qed.
+
+Lemma wrun_kfilter R P : forall V p, StronglySorted vr_lt (p :: V) ->
+  ofilter P (wrun R p V) = if P (vr_key p) then wrun R p (kfilter P V) else wrun_top R (kfilter P V).
+Proof.
+  induction V as [|x t IH]; intros p S.
+  - cbn [wrun kfilter filter wrun_top]. rewrite ofilter_emit. reflexivity.
+  - assert (Spt : StronglySorted vr_lt (p :: t)).
+    { inversion S as [|? ? S' F]; subst. inversion S' as [|? ? S'' F']; subst. inversion F; subst. constructor; assumption. }
+    assert (Sxt : StronglySorted vr_lt (x :: t)) by (inversion S; assumption).
+    assert (Lpx : vr_lt p x) by (inversion S as [|? ? ? F]; subst; inversion F; assumption).
+    cbn [wrun kfilter filter]. fold (kfilter P t).
+    destruct (R <? vr_rev x) eqn:ER.
+    + rewrite (IH p Spt). destruct (P (vr_key x)); cbn [wrun wrun_top]; rewrite ?ER; reflexivity.
+    + unfold ofilter. rewrite filter_app. fold (ofilter P (wrun R x t)). rewrite (IH x Sxt).
+      destruct (P (vr_key p)) eqn:Pp; destruct (P (vr_key x)) eqn:Px; cbn [wrun wrun_top]; rewrite ?ER.
+      * f_equal. destruct (beqb (vr_key x) (vr_key p)); [reflexivity|].
+        fold (ofilter P (emit_of p)). rewrite ofilter_emit, Pp. reflexivity.
+      * assert (NE : vr_key p <> vr_key x) by (intros E; rewrite E in Pp; congruence).
+        replace (beqb (vr_key x) (vr_key p)) with false by (symmetry; apply beqb_neq; congruence).
+        fold (ofilter P (emit_of p)). rewrite ofilter_emit, Pp.
+        symmetry. apply wrun_flush. intros z Hz E.
+        unfold kfilter in Hz. apply filter_In in Hz as [Hz _].
+        pose proof (vr_lt_diffkey p x Lpx NE) as C1.
+        pose proof (sorted_key_le x t Sxt z Hz) as C2.
+        rewrite E in C2. apply C2. apply bcmp_gt_lt. exact C1.
+      * assert (NE : vr_key x <> vr_key p) by (intros E; rewrite E in Px; congruence).
+        replace (beqb (vr_key x) (vr_key p)) with false by (symmetry; apply beqb_neq; exact NE).
+        fold (ofilter P (emit_of p)). rewrite ofilter_emit, Pp. reflexivity.
+      * destruct (beqb (vr_key x) (vr_key p)); [reflexivity|].
+        fold (ofilter P (emit_of p)). rewrite ofilter_emit, Pp. reflexivity.
+Qed.
+
+Theorem wrun_top_kfilter R P : forall V, StronglySorted vr_lt V -> ofilter P (wrun_top R V) = wrun_top R (kfilter P V).
+Proof.
+  induction V as [|x t IH]; intros S; [reflexivity|].
+  cbn [wrun_top kfilter filter]. fold (kfilter P t).
+  destruct (R <? vr_rev x) eqn:ER.
+  - rewrite IH by (inversion S; assumption). destruct (P (vr_key x)); cbn [wrun_top]; rewrite ?ER; reflexivity.
+  - rewrite (wrun_kfilter R P t x S). destruct (P (vr_key x)); cbn [wrun_top]; rewrite ?ER; reflexivity.
+Qed.
+
+Lemma kfilter_sorted P V : StronglySorted vr_lt V -> StronglySorted vr_lt (kfilter P V).
+Proof.
+  induction V as [|x t IH]; intros S; [constructor|].
+  inversion S as [|? ? St F]; subst. cbn [kfilter filter]. fold (kfilter P t).
+  destruct (P (vr_key x)); [|apply IH; exact St].
+  constructor; [apply IH; exact St|]. rewrite Forall_forall in *. intros y Hy.
+  apply F. unfold kfilter in Hy. apply filter_In in Hy. tauto.
+Qed.
+
+(* the snapshot restricted to a set of keys is the snapshot of the records of those keys *)
+Theorem snapshot_kfilter P V R : StronglySorted vr_lt V -> ofilter P (snapshot V R) = snapshot (kfilter P V) R.
+Proof.
+  intros S. rewrite <- !wrun_top_snapshot by (try apply kfilter_sorted; exact S). apply wrun_top_kfilter. exact S.
 Qed.
